@@ -23,6 +23,10 @@ go test -vet=off -count=1 -run 'TestSeededDemo$' -timeout 20m $pkg > $out/demo_w
 git stash pop -q
 echo "== existing tests of touched packages with patch: $pkgs"
 go test -vet=off -count=1 -skip 'TestSeededDemo' -timeout 40m $pkgs > $out/pkgtests.log 2>&1; rc_pkg=$?
+# worktrees created before the hook commit lack the (guarded, add-only) verif hook: add it for the check only
+if [ ! -f $wt/consensus/verif_on.go ]; then
+  git -C /repo diff 7f1e1df^ 7f1e1df | git -C $wt apply && hook_added=1
+fi
 echo "== check $prop ($tier) against patched tree"
 cd /verif
 VERIF_REPO=$wt VERIF_EVIDENCE_DIR=/tmp/ev-$id VERIF_REPLAYS=/tmp/rp-$id ./check $prop --tier $tier > $out/check.log 2>&1; rc_check=$?
@@ -35,4 +39,5 @@ check_rc=$rc_check violations=$nviol
 $sigs
 EOT
 cat $out/result.txt
+if [ "${hook_added:-0}" = 1 ]; then git -C /repo diff 7f1e1df^ 7f1e1df | git -C $wt apply -R; fi
 rm -rf /tmp/ev-$id /tmp/rp-$id
